@@ -59,7 +59,7 @@ def run(ctx):
                 "process and file-system behaviour (exit status, stdout/stderr, directory snapshot before/after) is observed on the real binary, not proved; file-system calls of generate are assumed to succeed in the model",
             ],
             assumptions=[
-                "schema files are GraphQL SDL files (no introspection JSON, no schema.js), no plugins other than unknown ones; configuration comes from graphql.config.yaml",
+                "schema files are GraphQL SDL files (no introspection JSON, no schema.js); plugins: nitrogql:model-plugin or unknown names; configuration comes from graphql.config.yaml",
                 "theorems about exit status and output exclude panics by a computable guard (a panic ends the process with status 0: C18_panic_exits_zero_refuted)",
             ],
         )
